@@ -588,7 +588,38 @@ var sugarLogCalls = map[string]shim{
 	"opt:CE.Write":             {kind: "extstmt", f: "CE.Write", trace: "#ev"},
 }
 
+// ---- round 4, C05: the constructors that decide what a core tree IS: NewIncreaseLevelCore (the validation scan over
+// the levels, highest first), NewTee (0 / 1 / n), and the Level() methods.  Enabled of a core / an enabler and LevelOf are
+// parameters; the level bounds are read from zapcore/level.go.
+var ctorConsts = map[string]string{"_maxLevel": "src:zapcore/level.go", "_minLevel": "src:zapcore/level.go", "InvalidLevel": "src:zapcore/level.go"}
+var ctorTypes = map[string]string{"Core": "opt:Core", "LevelEnabler": "opt:LevelEnabler", "Level": "i8", "levelFilterCore": "struct:LevelFilter",
+	"multiCore": "[]opt:Core"}
+
+func ctorFunc(file, recv, name string, fields map[string]fieldSpec, recvAs *fieldSpec) transFunc {
+	lean := name
+	if recv != "" {
+		lean = recv + "_" + name
+	}
+	return transFunc{file: file, recv: recv, name: name, lean: lean, fields: fields, recvAs: recvAs, consts: ctorConsts, types: ctorTypes,
+		structs:    map[string][]fieldSpec{"LevelFilter": {{"core", "opt:Core"}, {"level", "opt:LevelEnabler"}}},
+		implements: map[string]string{"ptr:struct:LevelFilter": "opt:Core", "[]opt:Core": "opt:Core"},
+		calls: map[string]shim{
+			"opt:Core.Enabled":         {kind: "ext", f: "Core.Enabled", res: []string{"bool"}},
+			"opt:LevelEnabler.Enabled": {kind: "ext", f: "LevelEnabler.Enabled", res: []string{"bool"}},
+			"fmt.Errorf":               {kind: "ext", f: "fmt.Errorf", res: []string{"error"}},
+			"NewNopCore":               {kind: "ext", f: "NewNopCore", res: []string{"opt:Core"}},
+			"LevelOf":                  {kind: "ext", f: "LevelOf", res: []string{"i8"}},
+		}}
+}
+
 var transSpecs = []transSpec{
+	{table: "TransCtor", funcs: []transFunc{
+		ctorFunc("zapcore/increase_level.go", "", "NewIncreaseLevelCore", nil, nil),
+		ctorFunc("zapcore/increase_level.go", "levelFilterCore", "Level",
+			map[string]fieldSpec{"core": {"core", "opt:Core"}, "level": {"level", "opt:LevelEnabler"}}, nil),
+		ctorFunc("zapcore/tee.go", "", "NewTee", nil, nil),
+		ctorFunc("zapcore/tee.go", "multiCore", "Level", nil, &fieldSpec{"mc", "[]opt:Core"}),
+	}},
 	{table: "TransMessage", funcs: []transFunc{
 		sugarMsgFunc("", "getMessage", nil),
 		sugarMsgFunc("", "getMessageln", nil),
